@@ -81,7 +81,9 @@ StrictRead(s, shape, tab) ==
                  \/ (ValidType(a.type) /\ ~IsAlpha(a.type[1]))
                  \/ \E i \in 1..Len(withEq) : ValidKey(KeyOf(withEq[i])) /\ ~IsAlpha(KeyOf(withEq[i])[1])
   IN IF lenient THEN [kind |-> "nonstrict"]
-     ELSE IF faults # {} THEN [kind |-> "fault", cls |-> faults]
+     \* a key repeated with an empty value is unjudged (the code refuses `a=b&A=` and accepts `a=&a=b`): next to
+     \* a listed fault it makes the error class free
+     ELSE IF faults # {} THEN [kind |-> "fault", cls |-> IF dup # dupHard THEN faults \cup {"free"} ELSE faults]
      ELSE IF dup # {} THEN [kind |-> "nonstrict"]
      ELSE LET kept == SelectSeq(withEq, LAMBDA x : Decode(ValOf(x)).s # <<>>)
               RECURSIVE Ins(_, _)
